@@ -569,14 +569,11 @@ def kCount : KM Nat := kCall .count (fun s => (s, .ok s.count))
 def kSearch (p : Obj) (now : Int) : KM (List (String × Obj × List Bs)) := kCall .search (fun s => searchK s p now)
 def kFindRules (ev : Obj) (now : Int) : KM (List (String × Obj)) := kCall .findRules (fun s => findRulesK s ev now)
 
-/-- the memory after an `Add` whose cron hook failed. Indexed: the hook runs inside `add` after the rule index was touched —
-the rule stored under the id so far has left the index and is NOT put back (only a failing `indexRule` puts it back), and
-nothing new was indexed (a hook fails on a `rule` that is not a map or carries a bad `schedule`: neither is indexed);
-facts, term index and storage are untouched. Linear: the hook runs after the document went to storage, before memory. -/
-def hookFailedSt (s : St) (id : String) (m : Obj) : St :=
-  match s.kind with
-  | .indexed => (match unindexPreviousR s id with | .ok (s1, _) => s1 | .error _ => s)
-  | .linear => { s with store := amSet s.store id (.obj m) }
+/-- the memory after an `Add` whose cron hook failed: as before the call. Indexed: the hook runs inside `add` after the rule
+index was touched, and `add` puts the index back (the pattern of the refused rule leaves it again, the rule stored under
+the id so far returns to it). Linear: the hook runs before the document goes to storage. (Before the repair the rule
+stored so far stayed out of the index, and the linear state had already written the refused document.) -/
+def hookFailedSt (s : St) (_id : String) (_m : Obj) : St := s
 
 /-- `State.Add` (+ the add hook of a System: it sees the prepared fact; its error aborts the add) -/
 def kAdd (id : String) (x : Obj) (now : Int) : KM String := fun k =>
